@@ -43,6 +43,29 @@ theorem C15_layout_independent (p : Prog) (storing : Bool) (toks toks' : List To
   rw [hf]
   exact ⟨a, b, c⟩
 
+/-- **One merged callback log: where the whitespace callbacks stand among the others** (review rA, B / L1).  The two projections
+    `C15_structOf` / `C15_wsOf` of the other layout theorems lose the interleaving; this statement keeps it.  For token sequences that
+    differ only in layout, every program, both modes, there is ONE sequence `sc` of scans of next_token — (skip depth at that moment,
+    token of the first run, token of the second), newest first — such that the two complete callback logs (newest first) are built
+    by the same sequence of steps (`LogRel`): either the same non-whitespace callback is put on both logs, or a scan puts the layout
+    callbacks `segEvents d t.pre` of the token scanned on the first log and `segEvents d t'.pre` of the corresponding token on the
+    second, AT THE SAME PLACE between the other callbacks; the tokens scanned are, in order, a prefix of the two sequences.  So the
+    whitespace and comments in front of `data_b` are reported before block_start of `b` in one layout iff they are in every layout
+    (in particular iff the layout-free position of the scan is before it), a comment inside a skipped frame before its frame_end,
+    and so on.  For a program that never skips every scan has depth ≤ 0 (all whitespace runs and comments are reported). -/
+theorem C15_layout_interleaving (p : Prog) (storing : Bool) (toks toks' : List Tok) (h : SkelL toks toks') :
+    ∃ (sc : List (Int × Tok × Tok)) (rest rest' : List Tok),
+      LogRel sc (parseCB p storing toks).1.reverse (parseCB p storing toks').1.reverse
+      ∧ toks = sc.reverse.map (·.2.1) ++ rest ∧ toks' = sc.reverse.map (·.2.2) ++ rest'
+      ∧ (NoSkipP p → ∀ x ∈ sc, x.1 ≤ 0) := by
+  have hf : fuelFor toks' = fuelFor toks := by unfold fuelFor; rw [h.length]
+  obtain ⟨_, r2, _⟩ := cif_rel (p := p) 1 storing (fuelFor toks) (Rel.init p h)
+  obtain ⟨sc, g1, g2, g3, g4⟩ := r2.ghost
+  refine ⟨sc, _, _, ?_, g2, g3, fun hp => (g4 hp).2⟩
+  unfold parseCB
+  rw [hf]
+  simpa using g1
+
 /-- … in particular everything but the whitespace callbacks is what the parse of the layout-free sequence gives; that parse makes no
     whitespace callback at all -/
 theorem C15_layout_free (p : Prog) (storing : Bool) (toks : List Tok) :
@@ -226,6 +249,8 @@ def C15_demoToks : List Tok := C15_withLayout C15_demoLayout (tokensOf C15_demo)
 -- the hypotheses of the document-level theorems hold: 21 tokens, 21 layouts, same skeleton
 example : (tokensOf C15_demo).length = 21 ∧ C15_demoLayout.length = (tokensOf C15_demo).length ∧ wfDoc C15_demo = true := by decide +kernel
 example : SkelL (tokensOf C15_demo) C15_demoToks := C15_withLayout_skel _ _
+-- the merged-log statement applied to the demo document and its layout, under a program that skips
+example := C15_layout_interleaving (fun k _ => if k = 3 then -1 else 0) true (tokensOf C15_demo) C15_demoToks (C15_withLayout_skel _ _)
 -- all continue: 33 whitespace callbacks — every whitespace run and every comment
 example : (C15_wsOf (parseCB allContP true C15_demoToks).1).length = (C15_layoutEvents C15_demoLayout).length
     ∧ (C15_layoutEvents C15_demoLayout).length = 33 := by decide +kernel
